@@ -426,7 +426,7 @@ def parse_apidrv(out):
     return res
 
 
-def run_apidrv(ctx, exe, subs, tag, small=False, count=2000, timeout=1800, env_extra=None, prefix_cmd=None, cwd=None):
+def run_apidrv(ctx, exe, subs, tag, small=False, count=2000, timeout=1800, env_extra=None, prefix_cmd=None, cwd=None, adopt=None):
     """Run apidrv natively (or via `cargo miri run` when prefix_cmd is given); fold results into ctx."""
     args = list(subs) + ["--seed", str(ctx.seed), "--count", str(count)] + (["--small"] if small else [])
     cmd = (prefix_cmd + ["--"] if prefix_cmd else [exe]) + args
@@ -449,7 +449,7 @@ def run_apidrv(ctx, exe, subs, tag, small=False, count=2000, timeout=1800, env_e
             ctx.inconclusive.append(f"{stage}: did not finish (rc={rc}): {out[-400:]}")
             ctx.fatal_inconclusive = True
     for v in res["violations"]:
-        if v["property"] == ctx.prop or (ctx.prop, v["property"]) in EXTRA_TAGS:
+        if v["property"] == ctx.prop or (ctx.prop, v["property"]) in EXTRA_TAGS or (adopt and adopt(v)):
             v = dict(v)
             v.update({"level": "R", "stage": stage, "config": tag, "property_original": v["property"], "property": ctx.prop})
             ctx.add_violation(v)
@@ -463,7 +463,7 @@ def run_apidrv(ctx, exe, subs, tag, small=False, count=2000, timeout=1800, env_e
 
 
 # violations that a property's check also adopts although the monitor tagged them with a sibling property
-EXTRA_TAGS = {("C05", "C03"), ("C06", "C03"), ("C06", "C02")}
+EXTRA_TAGS = {("C05", "C03"), ("C05", "C15"), ("C06", "C03"), ("C06", "C02")}
 
 
 def miri_apidrv(ctx, subs, cfg="tc", release=False, count=20):
@@ -633,6 +633,10 @@ def check_C07(ctx):
         if cfg == cfgs[0]:
             ctx.coverage["distinct_nontrivial"] += a["stopped_mid_stream"]
         log(f"ran partial [{cfg}]: {a['splits']} splits, {a['stopped_mid_stream']} stopped mid-stream, {a['chunk_schedules']} chunk schedules")
+    # partial lexers that went through clone / morph / bump are still partial lexers: API histories with partial = true
+    for cfg in cfgs:
+        run_apidrv(ctx, build_apidrv(cfg), ["hist"], cfg, count=3000 if ctx.tier == "quick" else 100000,
+                   adopt=lambda v: v["property"] == "C14" and "partial=true" in v["detail"])
     ctx.assumptions += ["determinedness of an item is computed on the reference automata over all feasible continuations, not by sampling tails"]
 
 
@@ -683,11 +687,12 @@ def check_C05(ctx):
     n += obs_join(ctx, cdir, tags["sm"], tags["sm_safe"], "stream", meta["shards"], "default vs forbid_unsafe (state machine)")
     ctx.add_stage("join:unsafe-vs-safe", {"cases_compared": n})
     rel_cfgs = ["tc", "tc_safe"] if ctx.tier == "quick" else list(CONFIGS)
+    # `bump` is included: a lexer whose span left the source lets safe code form an out-of-range slice
     for cfg in CONFIGS:
-        r = run_apidrv(ctx, build_apidrv(cfg), ["read", "long"], cfg)
+        r = run_apidrv(ctx, build_apidrv(cfg), ["read", "long", "bump"], cfg)
         ctx.coverage["distinct_nontrivial"] += r["summaries"].get("read", {}).get("returned_some", 0) if cfg == "tc" else 0
     for cfg in rel_cfgs:
-        run_apidrv(ctx, build_apidrv(cfg, release=True), ["read", "long"], cfg + "-release")
+        run_apidrv(ctx, build_apidrv(cfg, release=True), ["read", "long", "bump"], cfg + "-release")
     if ctx.tier == "thorough":
         cdir2, meta2, tags2, aggs2 = stage_stream(ctx, "mixed", ["tc", "tc_safe"], {"C05"}, release=True, name="R:stream-release")
         obs_join(ctx, cdir2, tags2["tc"], tags2["tc_safe"], "stream", meta2["shards"], "release: default vs forbid_unsafe")
@@ -1119,8 +1124,36 @@ def do_setup():
 
 def replay(prop, path):
     v = json.load(open(path))
-    if v.get("level") == "L":
+    print("recorded violation:")
+    print(json.dumps({k: v[k] for k in v if k not in ("definition", "output_tail", "extra")}, indent=1, default=str)[:3000])
+    if v.get("level") == "L" and isinstance(v.get("definition"), dict) and "pats" in v["definition"]:
         print(vtool(["replay", "--file", path]))
+        return 0
+    if isinstance(v.get("definition"), dict) and v["definition"].get("source") and "def" not in v:
+        # raw source (C19 specimens, rsample): show what the library entry point does with it now
+        tmp = os.path.join(WORK, "replay-src.rs")
+        open(tmp, "w").write(v["definition"]["source"])
+        print(vtool(["show", "--file", tmp])[:3000])
+        return 0
+    if str(v.get("stage", "")).startswith("apidrv:"):
+        _, tag, subs = v["stage"].split(":", 2)
+        ctx = Ctx(prop, v.get("tier", "quick"), v.get("seed", 1))
+        cfg = tag.replace("-release", "").replace("-asan", "").replace("miri-", "")
+        if tag.startswith("miri-"):
+            res = miri_apidrv(ctx, subs.split("+"), cfg, release=tag.endswith("-release"))
+        else:
+            exe = build_apidrv(cfg, release="-release" in tag, asan="-asan" in tag)
+            res = run_apidrv(ctx, exe, subs.split("+"), tag)
+        for x in res["violations"][:40]:
+            print("  ", x)
+        return 0
+    if v.get("input") and prop in ("C16", "C17"):
+        tmp = os.path.join(WORK, "replay-cli.rs")
+        open(tmp, "w").write(v["input"])
+        rc, out = sh([build_cli(False), tmp], timeout=120)
+        print(f"logos-cli rc={rc}\n{out[:3000]}")
+        return 0
+    if "def" not in v:
         return 0
     seed, tier = v.get("seed", 1), v.get("tier", "quick")
     ctx = Ctx(prop, tier, seed)
